@@ -107,12 +107,13 @@ PROPS = {
     ),
     "C13": dict(
         mc=["MC_Store"],
-        gen=[dict(module="Gen_Store", cfg="Gen_Store_reply.cfg", out="store_cases.ndjson",
-                  simulate=dict(quick="num=1500", thorough="num=30000", depth=30)),
-             dict(module="Gen_Store", cfg="Gen_Store_matrix.cfg", out="store_matrix.ndjson")],
-        topic="store",
-        rules=["NoPanic", "ReplyUpper", "ReplyLower", "ReplyAddl", "ReplyMeta", "ReplyNone"],
-        shards=14,
+        runs=[dict(topic="store", shards=14,
+                   gen=[dict(module="Gen_Store", cfg="Gen_Store_reply.cfg", out="store_cases.ndjson",
+                             simulate=dict(quick="num=1500", thorough="num=30000", depth=30)),
+                        dict(module="Gen_Store", cfg="Gen_Store_matrix.cfg", out="store_matrix.ndjson")]),
+              # the real responders (sync, tokio) answering over the loopback multicast group (sampled)
+              dict(topic="resprun", shards=1, gen=[])],
+        rules=["NoPanic", "ReplyUpper", "ReplyLower", "ReplyAddl", "ReplyMeta", "ReplyNone", "E2EReplied"],
     ),
     "C20": dict(
         mc=["MC_Store", "MC_Discovery", "MC_DiscoveryAsync", "MC_DiscoveryLossy"],
@@ -427,7 +428,7 @@ EXTRA = {
     "C05": "Every case starts with a question whose QTYPE (specific types and IXFR/AXFR/MAILB/MAILA/ANY), QCLASS and unicast bit vary; TTLs 0x80000000 / 0xFFFFFFFF / 0x7FFFFFFF, the cache-flush bit and class CH are spread over the records. The clause 'never read from the middle of that record' is also observed directly: a hook at the top of Question::parse / ResourceRecord::parse records the offset at which the parser starts on each entry, and TLC requires those offsets to be a prefix of the entry offsets found by an independent envelope walker (EnvelopeStarts: names, fixed parts, RDLENGTH skips only), whatever the outcome of the parse (EntryAligned). Cases include RDLENGTH 0 for every type (with and without content following) and OPT at every position among 0..3 other additional records.",
     "C06": "The framing cases (records whose RDLENGTH is larger or smaller than their typed content) are parsed too and the fields that FOLLOW a name in a record's schema must equal the reference decoding (AfterName). Names inside RDATA: for every name-bearing record type TLC prints the reference encoding and a third-party compressed one (every RDATA name a bare pointer into the question); a hook at the top of Name::parse records where the parser starts on each name and TLC requires those offsets to be, in order, the positions of the message's names as located by the schema-aware site walker of Compress.tla (NameSiteAligned: parsing of the enclosing element resumes right after the in-place bytes).",
     "C10": "Also: for every name-bearing type a third-party pointer-compressed encoding (the parsed result must equal the reference decoding), three- and four-window NSEC orderings among the rule-breaking encodings, and random sequences of the typed SvcParam setters of SVCB/HTTPS (set_port, set_alpn, set_no_default_alpn, set_ipv4hint, set_ipv6hint, set_mandatory, set_param): iter_params, get_param and the built record must show the RFC 9460 section 7 values computed in the specification (SvcbSetters).",
-    "C13": "In addition to the random histories, a bounded-exhaustive matrix: every record of the catalogue (incl. MB/MG/MR/MX/MINFO) registered alone x every supported QTYPE and IXFR/AXFR/MAILB/MAILA/ANY x QCLASS {IN, CH, ANY}, asked at the record's own name and at its parent.",
+    "C13": "Sampled on real sockets (RespRun): the real SimpleMdnsResponder (sync and tokio) serving seven records answers twelve queries (QU / non-QU, one and two questions, ANY / SRV / TXT / A / AAAA, classes IN / CH / ANY, a name nobody owns) sent over the loopback multicast group; every reply seen at a plain socket (unicast) or at a socket joined to the group (multicast) must satisfy the reply bounds, carry the query id and QR, and have gone to the querier iff some question asked for unicast; a query that must be answered must be seen answered in at least one of the attempts (E2EReplied). In addition to the random histories, a bounded-exhaustive matrix: every record of the catalogue (incl. MB/MG/MR/MX/MINFO) registered alone x every supported QTYPE and IXFR/AXFR/MAILB/MAILA/ANY x QCLASS {IN, CH, ANY}, asked at the record's own name and at its parent.",
     "C14": "The discovery-listener pipeline runs without a notification channel, with a live one (drained by the application) and with one whose receiver was dropped, sync and tokio; the usability probe after every datagram does what get_known_services() does (from_records over the cached records); hostile labels cover every alignment of character boundaries (0..3 ASCII bytes followed by invalid, 2-byte and 4-byte units). Sampled on real sockets (NetRun): sync and tokio responder and discovery services answer a probe before the hostile burst and must still answer after it (a fresh control responder tells a dead loop from a dead network); the one-shot resolver keeps resolving (an answered name, an unanswered name, address-and-port of an unanswered service) during the whole burst, which includes responses with id 0 owned by the names it asks for with empty, truncated and mistyped RDATA; any panic on a library thread is a violation.",
     "C15": "Protocol level: Discovery.tla (one action per implementation step of ServiceDiscovery, sync and tokio flavours; MC_Discovery, MC_DiscoveryAsync, MC_DiscoveryLossy) model-checks NeverPartial, NothingForeign, Prompt and Stable. Sampled on real sockets (E2E): 2-3 real ServiceDiscovery peers (sync, then tokio) advertise random instances of a unique service on the loopback multicast group; every sample of every peer's get_known_services() must consist of exactly the instances other running peers advertise (DiscoverExact, every observation), and within two seconds every running peer must list every other one and keep doing so after a third one left, in at least one of the attempts (E2EDiscovered).",
     "C09": "The EDNS data and the 12-bit response code must also survive the compressing serialiser: the reference decoder applied to build_bytes_vec_compressed of every OPT-carrying packet of the builder machine finds the same OPT data and rcode (CompOpt), whatever else the message holds (e.g. a non-empty authority section).",
